@@ -34,7 +34,7 @@ CAP = 1e-3
 
 def gen(seed, idx, tier):
     rnd = substream(seed, idx, "c04")
-    screening = rnd.random() < 0.15
+    screening = rnd.random() < 0.2
     scn = scen.gen_physics(
         rnd,
         screening=screening,
@@ -46,7 +46,13 @@ def gen(seed, idx, tier):
     )
     if screening and scn["drive"]["field"]["kind"] in ("zero", "ramp", "pw", "sin", "wave"):
         # a vanishing induced potential makes the relative convergence test a coin flip on noise
+        was = scn["drive"]["field"]["kind"]
         scn["drive"]["field"] = {"kind": "const", "B": scn["drive"]["field"].get("B", 0.1) or 0.1}
+        r2 = substream(seed, idx, "c04-screened-time-dependent")
+        if was != "zero" and r2.random() < 0.7:
+            # ... but a time-dependent field that stays away from zero does not: the electric field -dA/dt
+            # and the screening iterations (operators refreshed inside the step) meet in the same update
+            scn["drive"]["field"] = {"kind": "ramp", "B": scn["drive"]["field"]["B"], "tmin": 0.0, "tmax": scn["options"]["solve_time"], "initial": 1.0, "final": r2.choice([1.5, 2.0, 0.5, 1.05])}
     tp = scn["options"].get("terminal_psi", 0.0)
     if tp not in (0.0, None):
         scn["options"]["terminal_psi"] = rnd.choice([0.0, None])
